@@ -1145,6 +1145,8 @@ def expected_layer(name: str, present: set[str]) -> str | None:
 
 def expected_text(kind: str, layer: str | None, vals: dict[str, Any] | None = None) -> str | None:
     """Exact expected text, or None when a shape (built-in) is expected."""
+    if kind == "inc":
+        return str(COUNTER_N)  # one more increment continues the same counter
     if vals is not None and layer in vals and vals[layer] != VAL.get(layer):
         return str(vals[layer])  # only print sites exist where a layer's value differs
     if layer is None:
@@ -1249,6 +1251,12 @@ CONTEXTS = {
     # evaluated in the enclosing scope, so the sibling's new binding must not be seen
     "sibling": ["with", "with-rev", "include-kw", "include-alias", "render-kw",
                 "render-alias", "call-kw", "translate"],
+    # the FIRST counter operation of the whole render happens inside a construct; the
+    # counter is read back (by name, and by one more increment) after the construct ends:
+    # flat templates, a base rendered directly, and children overriding the block
+    "cfirst": ["flat-with", "flat-for", "flat-if", "flat-capture", "flat-liquid",
+               "flat-include", "flat-dec", "base-direct", "child-override", "child-nested",
+               "child-super", "child-include"],
     "lambda": ["root:" + f for f in ("map", "where", "reject", "find", "find_index", "has",
                                      "sort", "sort_natural", "sort_numeric", "uniq",
                                      "compact", "sum", "index")]
@@ -1258,7 +1266,7 @@ CONTEXTS = {
 # four api/mode combinations and only the nil/false falsy profiles
 LATE_VARIANTS = {"tablerow-0", "withcap-0", "withdec-0", "alias", "alias-for",
                  "forblock-0", "withblock-0", "around-for", "around-with"}
-NO_FALSY_CONTEXTS = ("lambda", "chain", "sibling")
+NO_FALSY_CONTEXTS = ("lambda", "chain", "sibling", "cfirst")
 # what a lambda filter prints when its parameter (bound to each item) wins inside the
 # lambda body; any outer binding of the same name gives something else
 LAMBDA_EXPR = {
@@ -1290,6 +1298,8 @@ def site_count(context: str, variant: str, only: str | None, falsy: Any) -> int:
         return 1
     if context == "chain":
         return NSITES
+    if context == "cfirst":
+        return NSITES + 1
     if falsy and falsy.get("reduced"):
         return len(REDUCED_SITES)
     return NSITES_EXT if falsy else NSITES
@@ -1351,6 +1361,44 @@ def build(name: str, mask: int, context: str, variant: str, only: str | None = N
                     + marker + "{% endtranslate %}")
         return "{% translate " + ", ".join(targs) + " %}" + marker + "{% endtranslate %}"
 
+    if context == "cfirst":
+        inc3 = f"{{% increment {N} %}}" * COUNTER_N
+        wo, wc = (f"{{% with {N}: {vb} %}}", "{% endwith %}") if B else ("", "")
+        read = wo + S + f"{OPEN}inc:{{% increment {N} %}}{CLOSE}" + wc
+        where, how = variant.split("-")
+        if where == "flat":
+            extra: dict[str, str] = {}
+            if how == "with":
+                body = "{% with c10pad: 1 %}" + inc3 + "{% endwith %}"
+            elif how == "for":
+                body = "{% for c10q in (1..1) %}" + inc3 + "{% endfor %}"
+            elif how == "if":
+                body = "{% if true %}" + inc3 + "{% endif %}"
+            elif how == "capture":
+                body = "{% capture c10cap %}" + inc3 + "{% endcapture %}"
+            elif how == "liquid":
+                body = "{% liquid\n" + f"increment {N}\n" * COUNTER_N + "%}"
+            elif how == "dec":
+                body = ("{% with c10pad: 1 %}" + f"{{% decrement {N} %}}"
+                        + f"{{% increment {N} %}}" * (COUNTER_N + 1) + "{% endwith %}")
+            else:
+                body, extra = "{% include 'p' %}", {"p": inc3}
+            return dict({"root": asg + body + read}, **extra)
+        if where == "base":
+            return {"root": asg + "<{% block content %}" + inc3 + "{% endblock %}>" + read}
+        out = {"base": asg + "<{% block content %}base{% endblock %}>" + read}
+        if how == "override":
+            out["root"] = "{% extends 'base' %}{% block content %}" + inc3 + "{% endblock %}"
+        elif how == "nested":
+            out["root"] = ("{% extends 'base' %}{% block content %}{% block inner %}" + inc3
+                           + "{% endblock %}{% endblock %}")
+        elif how == "include":
+            out["root"] = "{% extends 'base' %}{% block content %}{% include 'p' %}{% endblock %}"
+            out["p"] = inc3
+        else:
+            out["mid"] = "{% extends 'base' %}{% block content %}" + inc3 + "{% endblock %}"
+            out["root"] = "{% extends 'mid' %}{% block content %}[{{ block.super }}]{% endblock %}"
+        return out
     if context == "sibling":
         smark = f"{OPEN}out:{{{{ c10s }}}}{CLOSE}"
         pre = inc + asg
@@ -1704,8 +1752,12 @@ class O2:
                     actual = "not-the-lambda-parameter"
                 if si > 0 and actual == "render-arg" and not with_r:
                     actual = "render-arg of a previous render"
+                klabel = label
+                if kind == "inc":
+                    # one more increment after the construct must continue the counter
+                    klabel, actual = "counter", "a fresh counter (the first one was lost)"
                 viol(
-                    f"precedence:{label} shadowed-by {actual}{suffix}",
+                    f"precedence:{klabel} shadowed-by {actual}{suffix}",
                     (f"the argument expression `c10s: {name}` of a tag that also binds {name} "
                      f"(sibling argument), read back as {{{{ c10s }}}}," if context == "sibling"
                      else f"{{{{ {name} }}}} at site '{kind}'")
@@ -1798,6 +1850,8 @@ def _run_o2(spec: dict[str, Any], ctx: Ctx) -> None:
             continue
         if context == "lambda" and not base & BIT["block"]:
             continue  # the lambda parameter is the block layer
+        if context == "cfirst" and not base & BIT["counter"]:
+            continue  # the counter is the subject
         for vi, variant in enumerate(variants):
             if undocumented(variant, base):
                 ctx.count("o2_undocumented_not_generated")
@@ -1811,6 +1865,8 @@ def _run_o2(spec: dict[str, Any], ctx: Ctx) -> None:
                 continue
             if tier != "quick":
                 apis = ALL_APIS
+            elif context == "cfirst":
+                apis = [APIS[(bi + vi) % len(APIS)]]
             elif context in NO_FALSY_CONTEXTS or variant.startswith("translate"):
                 apis = [APIS[(bi + vi) % len(APIS)], APIS[(bi + vi + 2) % len(APIS)]]
             elif variant in LATE_VARIANTS:
@@ -1986,6 +2042,182 @@ def _replay_tagname(wit: dict[str, Any], ctx: Ctx) -> None:  # noqa: ARG001
 
 
 # ---------------------------------------------------------------------------------------
+# implicit names: variables that filters and tags resolve through the render context
+# ---------------------------------------------------------------------------------------
+
+# name -> (lookup site: filter applications whose output depends on the name, candidates)
+IMPLICIT: dict[str, tuple[str, list[Any]]] = {
+    "locale": ("{{ 1234567.891 | decimal }}/{{ 1234.5 | currency }}/{{ 7 | unit: 'length-meter' }}",
+               ["de", "fr", "en_IN", "de_CH", "es", "sv", "ja", "it"]),
+    "input_locale": ("{{ '1.234,5' | decimal }}/{{ '1,5' | decimal }}/{{ '1 234,5' | currency }}",
+                     ["de", "fr", "de_CH", "sv", "es", "en_IN"]),
+    "timezone": ("{{ '2007-04-01 15:30:00' | datetime }}",
+                 ["CET", "Asia/Tokyo", "US/Pacific", "Asia/Kolkata", "Australia/Sydney",
+                  "America/New_York", "Europe/Moscow"]),
+    "input_timezone": ("{{ '2007-04-01 15:30:00' | datetime }}",
+                       ["Asia/Tokyo", "US/Pacific", "Asia/Kolkata", "Australia/Sydney",
+                        "America/New_York", "Europe/Moscow", "CET"]),
+    "currency_code": ("{{ 10 | currency }}/{{ 5 | money_with_currency }}",
+                      ["GBP", "EUR", "CAD", "JPY", "AUD", "CHF", "SEK"]),
+    "datetime_format": ("{{ '2007-04-01 15:30:00' | datetime }}",
+                        ["short", "long", "full", "yyyy", "HH:mm", "MMM", "EEEE"]),
+    "currency_format": ("{{ 10 | currency }}",
+                        ["#,##0.00 ¤¤", "¤¤ #0", "#0.0 ¤", "0 ¤¤¤", "¤ #,##0.000", "[¤#0]", "#0¤"]),
+    "decimal_format": ("{{ 1234.5 | decimal }}",
+                       ["#,##0.00", "#0.0", "0000000.0", "#E0", "#0.000", "#,##0.0000", "[#0]"]),
+    "translations": ("{{ 'Hello' | t }}/{% translate %}Hi{% endtranslate %}/{{ 'x' | gettext }}",
+                     ["tB", "tL", "tR", "tM", "tT", "tE"]),
+}
+IMPLICIT_LAYERS = ("block", "local", "render-arg", "matter", "template-global", "env-global")
+
+
+class _Catalog:
+    """A minimal translations object: marks every message with its own tag."""
+
+    def __init__(self, tag: str):
+        self.tag = tag
+
+    def __repr__(self) -> str:
+        return f"<catalog {self.tag}>"
+
+    def gettext(self, message: str) -> str:
+        return f"{self.tag}:{message}"
+
+    def ngettext(self, singular: str, plural: str, n: int) -> str:
+        return f"{self.tag}:{singular if n == 1 else plural}"
+
+    def pgettext(self, context: str, message: str) -> str:  # noqa: ARG002
+        return f"{self.tag}:{message}"
+
+    def npgettext(self, context: str, singular: str, plural: str, n: int) -> str:  # noqa: ARG002
+        return f"{self.tag}:{singular if n == 1 else plural}"
+
+
+def _run_implicit(spec: dict[str, Any], ctx: Ctx) -> None:
+    """Every subset of the layers binds an implicit name (locale, timezone, …) to a value
+    with a distinguishable formatted output; the name is (re)bound at several points of
+    one render — before the first use, between uses, inside with / include / for scopes,
+    in a rendered partial — and each use must show the value of the binding the
+    documented order selects AT THAT POINT.  Expected texts come from single-binding
+    oracle renders (render(name=value) of the bare lookup site)."""
+    from liquid2 import Environment
+
+    loader_cls = _make_loader_class()
+    tier = spec["tier"]
+    for ni, (iname, (site, cands)) in enumerate(IMPLICIT.items()):
+        if ni % spec["n"] != spec["i"]:
+            continue
+        plain = Environment()
+        is_obj = iname == "translations"
+
+        def val(c: Any) -> Any:
+            return _Catalog(c) if is_obj else c  # noqa: B023
+
+        try:
+            default_out = plain.from_string(site).render()
+            outs: dict[str, Any] = {}
+            for c in cands:
+                o = plain.from_string(site).render(**{iname: val(c)})
+                if o != default_out and o not in outs:
+                    outs[o] = c
+        except Exception as e:  # noqa: BLE001
+            ctx.violation(f"precedence:error:{type(e).__name__} in implicit-{iname}",
+                          f"single-binding oracle render raised {e!r}"[:300],
+                          {"o": "implicit", "name": iname, "site": site})
+            continue
+        values = list(outs.values())[: len(IMPLICIT_LAYERS)]
+        layers = IMPLICIT_LAYERS[: len(values)]
+        v = dict(zip(layers, values))
+        text_of = {la: o for o, c in outs.items() for la in layers if v[la] == c}
+        layer_of_text = {o: la for la, o in text_of.items()}
+        ctx.seen("implicit_names", f"{iname}:{len(layers)}-layers")
+
+        def lit(la: str) -> str:
+            return f"c10v_{la[0]}" if is_obj else f"'{v[la]}'"  # noqa: B023
+
+        def mark(tag: str) -> str:
+            return f"{OPEN}{tag}:{site}{CLOSE}"  # noqa: B023
+
+        for mask in range(2 ** len(layers)):
+            present = {la for i, la in enumerate(layers) if mask >> i & 1}
+            B, L = "block" in present, "local" in present  # noqa: N806
+            glob = next((la for la in ORDER if la in present
+                         and la not in ("block", "local")), None)
+            loc = "local" if L else glob
+            blk = "block" if B else loc
+            asg = f"{{% assign {iname} = {lit('local')} %}}" if L else ""
+            wo, wc = (f"{{% with {iname}: {lit('block')} %}}", "{% endwith %}") if B else ("", "")
+            inc_arg = f", {iname}: {lit('block')}" if B else ""
+            body = (asg + mark("u2") + wo + mark("u3") + wc + mark("u4")
+                    + f"{{% include 'p'{inc_arg} %}}"
+                    + (f"{{% for {iname} in c10bsrc %}}" + mark("u6") + "{% endfor %}" if B else "")
+                    + "{% render 'q' %}" + mark("u8"))
+            expect = {"u1": glob, "u2": loc, "u3": blk, "u4": loc, "u5": blk, "u7": glob,
+                      "u8": loc}
+            if B:
+                expect["u6"] = "block"
+            shapes = {
+                "flat": {"root": mark("u1") + body},
+                "extends": {"root": "{% extends 'base' %}{% block content %}" + body + "{% endblock %}",
+                            "base": mark("u1") + "<{% block content %}{% endblock %}>"},
+                "no-first-use": {"root": body},
+            }
+            g: dict[str, Any] = {"c10bsrc": [val(v["block"])] if "block" in v else []}
+            if is_obj:
+                for la in layers:
+                    g[f"c10v_{la[0]}"] = val(v[la])
+            if "env-global" in present:
+                g[iname] = val(v["env-global"])
+            matter = {iname: val(v["matter"])} if "matter" in present else None
+            tg = {iname: val(v["template-global"])} if "template-global" in present else None
+            args = {iname: val(v["render-arg"])} if "render-arg" in present else {}
+            for si, (shape, tpls) in enumerate(shapes.items()):
+                if tier == "quick" and shape == "no-first-use" and mask % 4:
+                    continue
+                tpls = dict(tpls, p=mark("u5"), q=mark("u7"))
+                env = Environment(loader=loader_cls(tpls, {"root": matter} if matter else {}),
+                                  globals=g)
+                api, mode = (("get_template", "sync"), ("from_string", "async"),
+                             ("get_template_async", "async"))[(mask + si) % 3]
+                wit = {"o": "implicit", "name": iname, "layers_present": sorted(present),
+                       "values": {la: repr(v[la]) for la in layers}, "shape": shape,
+                       "templates": tpls, "api": api, "mode": mode}
+                try:
+                    if api == "get_template":
+                        t = env.get_template("root", globals=tg)
+                    elif api == "from_string":
+                        t = env.from_string(tpls["root"], globals=tg, overlay_data=matter)
+                    else:
+                        t = drive(env.get_template_async("root", globals=tg))
+                    out = t.render(**args) if mode == "sync" else drive(t.render_async(**args))
+                except Exception as e:  # noqa: BLE001
+                    ctx.violation(f"precedence:error:{type(e).__name__} in implicit-{iname}",
+                                  f"render raised {e!r}"[:300], wit)
+                    continue
+                ctx.ev()
+                ctx.nt("implicit", iname, mask, shape, api)
+                found = dict(re.findall(f"{OPEN}(u\\d):(.*?){CLOSE}", out, re.S))
+                for tag, exp in expect.items():
+                    if tag == "u1" and shape == "no-first-use":
+                        continue
+                    ctx.count("implicit_site_checks")
+                    want = text_of[exp] if exp else default_out
+                    got = found.get(tag)
+                    if got == want:
+                        continue
+                    actual = ("undefined(default)" if got == default_out
+                              else layer_of_text.get(got, "unknown-value") if got is not None
+                              else "site-missing")
+                    ctx.violation(
+                        f"precedence:{exp or 'undefined(default)'} shadowed-by {actual} "
+                        f"in implicit-{iname}",
+                        f"use {tag} of the filters reading `{iname}` with layers "
+                        f"{sorted(present)} ({shape}) printed {got!r}; the binding in force at "
+                        f"that point is layer {exp} ({want!r})",
+                        dict(wit, use=tag, printed=got, expected=want))
+
+
+# ---------------------------------------------------------------------------------------
 # O2c: lookup precedence on the 2nd / 3rd get_template() through caching matter loaders
 # ---------------------------------------------------------------------------------------
 
@@ -1994,7 +2226,8 @@ CACHED_LOADERS = ("cdict", "cfs", "cchoice")
 # overrides get_source only): non-caching and caching, overriding get_source only, both,
 # or get_source_async only (then matter exists for the async API only), and a plain
 # ChoiceLoader delegating to one of them.  Every load of a non-caching kind is fresh.
-SUBCLASS_LOADERS = ("fs_sync", "fs_both", "fs_async", "cfs_sync", "choice_fs_sync")
+SUBCLASS_LOADERS = ("fs_sync", "fs_both", "fs_async", "cfs_sync", "choice_fs_sync",
+                    "pkg_sync")
 ALL_LOADER_KINDS = CACHED_LOADERS + SUBCLASS_LOADERS
 CACHED_APIS = ("get_template", "get_template_async")
 CACHED_PATTERNS = ("same", "different", "none")  # globals= passed by the later loads
@@ -2078,6 +2311,15 @@ class O2Cached:
                 ns["get_source_async"] = _async_src
             return type(name, (base,), ns)
 
+        from liquid2 import PackageLoader
+
+        self.pkg = f"c10pkg_{os.getpid()}_{id(self) % 100000}"
+        os.makedirs(os.path.join(self.tmp, self.pkg, "templates"))
+        with open(os.path.join(self.tmp, self.pkg, "__init__.py"), "w") as f:
+            f.write("")
+        sys.path.insert(0, self.tmp)
+        pkg_style = subclass(PackageLoader, "PackageFrontMatterLoaderSyncOnly", True, False)
+
         fs_styles = {
             "fs_sync": subclass(FileSystemLoader, "FrontMatterLoaderSyncOnly", True, False),
             "fs_both": subclass(FileSystemLoader, "FrontMatterLoaderBoth", True, True),
@@ -2093,8 +2335,19 @@ class O2Cached:
             if kind == "cchoice":
                 return CachingChoiceLoader(
                     [inner_cls({}, {}), inner_cls(templates, matter)], auto_reload=auto_reload)
+            if kind == "pkg_sync":
+                tdir = os.path.join(self.tmp, self.pkg, "templates")
+                for fn in os.listdir(tdir):
+                    os.unlink(os.path.join(tdir, fn))
+                for tname, src in templates.items():
+                    with open(os.path.join(tdir, tname + ".liquid"), "w", encoding="utf-8") as f:
+                        f.write(src)
+                ld = pkg_style(self.pkg)
+                ld.matter = matter
+                return ld
             for fn in os.listdir(self.tmp):
-                os.unlink(os.path.join(self.tmp, fn))
+                if os.path.isfile(os.path.join(self.tmp, fn)):
+                    os.unlink(os.path.join(self.tmp, fn))
             for tname, src in templates.items():
                 with open(os.path.join(self.tmp, tname), "w", encoding="utf-8") as f:
                     f.write(src)
@@ -2117,6 +2370,9 @@ class O2Cached:
             self.loop.run_until_complete(self.loop.shutdown_default_executor())
             self.loop.close()
         finally:
+            if self.tmp in sys.path:
+                sys.path.remove(self.tmp)
+            sys.modules.pop(self.pkg, None)
             shutil.rmtree(self.tmp, ignore_errors=True)
 
     def run(self, kind: str, coro):  # noqa: ANN001, ANN201
@@ -2364,7 +2620,10 @@ def _run_o2c(spec: dict[str, Any], ctx: Ctx) -> None:
 def shards(tier: str, seed: int) -> list[dict[str, Any]]:  # noqa: ARG001
     specs: list[dict[str, Any]] = [{"kind": "selftest", "i": 0, "n": 1},
                                    {"kind": "vivify", "i": 0, "n": 1},
-                                   {"kind": "tagnames", "i": 0, "n": 1}]
+                                   {"kind": "tagnames", "i": 0, "n": 1},
+                                   {"kind": "implicit", "i": 0, "n": 3},
+                                   {"kind": "implicit", "i": 1, "n": 3},
+                                   {"kind": "implicit", "i": 2, "n": 3}]
     nf = 9 if tier == "quick" else 24
     for i in range(nf):
         specs.append({"kind": "filters", "i": i, "n": nf})
@@ -2381,6 +2640,7 @@ def shards(tier: str, seed: int) -> list[dict[str, Any]]:  # noqa: ARG001
         specs.append({"kind": "layers", "name": name, "context": "lambda", "i": 0, "n": 1})
         specs.append({"kind": "layers", "name": name, "context": "chain", "i": 0, "n": 1})
         specs.append({"kind": "layers", "name": name, "context": "sibling", "i": 0, "n": 1})
+        specs.append({"kind": "layers", "name": name, "context": "cfirst", "i": 0, "n": 1})
     specs.append({"kind": "layers", "name": COUNT_NAME, "context": "all", "i": 0, "n": 1})
     ncached = 2 if tier == "quick" else 6
     for name in NAMES:
@@ -2429,6 +2689,9 @@ def floors(tier: str) -> dict[str, int]:
         "set:layer_subsets_lambda": 192,
         "set:layer_subsets_chain": len(NAMES) * 128,
         "set:layer_subsets_sibling": len(NAMES) * 128,
+        "set:layer_subsets_cfirst": len(NAMES) * 64,
+        "implicit_site_checks": 5000,
+        "set:implicit_names": 9,
         "tagname_site_checks": 300,
         "set:tagnames": len(TAGNAMES),
         # the partial's own loader matter as a layer
@@ -2460,11 +2723,23 @@ def run_shard(spec: dict[str, Any], ctx: Ctx) -> None:
         _run_o2c(spec, ctx)
     elif spec["kind"] == "tagnames":
         _run_tagnames(spec, ctx)
+    elif spec["kind"] == "implicit":
+        _run_implicit(spec, ctx)
     else:
         _run_o1(spec, ctx)
 
 
 def replay(wit: dict[str, Any], ctx: Ctx) -> None:
+    if wit.get("o") == "implicit":
+        names = list(IMPLICIT)
+        _run_implicit({"tier": "thorough", "i": names.index(wit["name"]), "n": len(names)}, ctx)
+        print(f"replay C10/implicit: re-ran every subset for `{wit['name']}`; this witness: "
+              f"layers={wit['layers_present']} shape={wit['shape']} use={wit.get('use')}")
+        for n, src in wit["templates"].items():
+            print(f"  template {n!r}: {src}")
+        for v in ctx.violations.values():
+            print(f"  {v['key']}: {v['what']}")
+        return
     if wit.get("o") == "tagname":
         _run_tagnames({"tier": "quick"}, ctx)
         _replay_tagname(wit, ctx)
